@@ -137,6 +137,8 @@ class Fragment(AbstractApplication):
         # all or nothing: the original is never sent above the MTU
         for fctr in fragments:
             glib.idle_add(self._agent.send_bundle, fctr)
+        if fragments:
+            ctr.record_action('fragment')
 
         # internal action, not delete
         ctr.route = None
